@@ -10,6 +10,15 @@ BASE = ("cd /repo && env -u TRACKLIB_VERIF_TRACE /venv/bin/python -m pytest -ra 
 
 # pid -> (module(s), technique, level text, level note, design ref)
 CHECKS = {
+    "C01": ("FeatureTable", "TLA+ state machine of the feature table (implementation-shaped: name->index order + per-observation "
+            "lists) checked by TLC; every transition replayed with a real history (spec->code) and random histories "
+            "over the whole operator catalogue validated by FeatureTableTrace.tla (code->spec)",
+            "TLC checks Aligned/Bijective/NoTemps and the Frame action property on all histories to depth 3 (N=2,3); every "
+            "transition of the graph is replayed on a real Track together with a history reaching its source; 3000+ recorded "
+            "calls of random 40-step histories (1..12 observations, all Operator.* objects, random expressions) are judged "
+            "step by step by the trace specification.",
+            "TLC 1.8; values are opaque tokens in traces (arithmetic is C02); listing order not compared; arithmetic-undefined "
+            "calls end a random history", "5/C01"),
     "C03": ("Calendar", "TLA+ clock model (day chain 1970-2099 x time-of-day lattice) checked exhaustively by TLC; every "
             "state/transition replayed on ObsTime (spec->code conformance)",
             "TLC enumerates every calendar day of 1970-2099 and checks the calendar invariants on the model; every "
